@@ -209,7 +209,8 @@ def userNameToFileName(
         if part.lower() in reservedFileNames:
             part = "_" + part
         parts.append(part)
-    userName = ".".join(parts)
+    # the "_" added to reserved names must not make the name too long
+    userName = ".".join(parts)[:sliceLength]
     # test for clash
     fullName = prefix + userName + suffix
     if fullName.lower() in existing:
